@@ -39,7 +39,8 @@ def main(argv):
     rng = np.random.default_rng(ck.seed)
 
     def run_case(cls, labels, nphys, instrs, meas, psi0):
-        log, res, psi = sc.run_spy(cls, labels, instrs, nphys, sc.dev_plain(nphys), psi0, gates=noise_free_gates)
+        # 1..3 sequential shots: the noise-free shot is deterministic, so the mean over shots is the single shot
+        log, res, psi = sc.run_spy(cls, labels, instrs, nphys, sc.dev_plain(nphys), psi0, gates=noise_free_gates, shots=1 + len(instrs) % 3)
         ideal = sc.qiskit_marginals(labels, instrs, meas, psi0)
         if set(res) != set(ideal): return "outcome keys differ from the 2^m strings of the measured qubits"
         d = max(abs(res[k] - ideal[k]) for k in ideal)
